@@ -6,8 +6,33 @@ import (
 	"github.com/dgryski/go-spooky"
 )
 
+// keyHash computes the cdb checksum of a key with the very same one-shot
+// function the reader uses (spooky.Hash32). The incremental spooky.New()
+// digest yields different values for inputs of 96..191 bytes, which made keys
+// of that length impossible to find once written.
+type keyHash struct {
+	buf []byte
+}
+
+func (d *keyHash) Write(p []byte) (int, error) {
+	d.buf = append(d.buf, p...)
+	return len(p), nil
+}
+
+func (d *keyHash) Sum32() uint32 { return spooky.Hash32(d.buf) }
+
+func (d *keyHash) Sum(b []byte) []byte {
+	h := d.Sum32()
+	return append(b, byte(h>>24), byte(h>>16), byte(h>>8), byte(h))
+}
+
+func (d *keyHash) Reset() { d.buf = d.buf[:0] }
+
+func (d *keyHash) Size() int { return 4 }
+
+func (d *keyHash) BlockSize() int { return 1 }
+
 // New returns a new hash computing the cdb checksum.
 func cdbHash() hash.Hash32 {
-	d := spooky.New(0, 0)
-	return d
+	return &keyHash{}
 }
